@@ -375,6 +375,8 @@ type Terminal struct {
 	sigstop            bool
 	startChan          chan fitpad
 	killChan           chan bool
+	previewKill        func()
+	previewKillMutex   sync.Mutex
 	serverInputChan    chan []*action
 	keyChan            chan tui.Event
 	eventChan          chan tui.Event
@@ -4231,6 +4233,13 @@ func (t *Terminal) killPreview() {
 	case t.killChan <- true:
 	default:
 	}
+	// The signal is lost if the watcher is not listening, and the watcher may
+	// not get to run before the program exits; kill the running command now
+	t.previewKillMutex.Lock()
+	if t.previewKill != nil {
+		t.previewKill()
+	}
+	t.previewKillMutex.Unlock()
 }
 
 func (t *Terminal) cancelPreview() {
@@ -4465,6 +4474,9 @@ func (t *Terminal) Loop() error {
 					finishChan := make(chan bool, 1)
 					err := cmd.Start()
 					if err == nil {
+						t.previewKillMutex.Lock()
+						t.previewKill = func() { util.KillCommand(cmd) }
+						t.previewKillMutex.Unlock()
 						verifPoint("preview:started")
 						reapChan := make(chan bool)
 						lineChan := make(chan eachLine)
@@ -4567,6 +4579,9 @@ func (t *Terminal) Loop() error {
 						finishChan <- true // Tell Goroutine 3 to stop
 						<-reapChan         // Goroutine 2 and 3 finished
 						<-reapChan
+						t.previewKillMutex.Lock()
+						t.previewKill = nil
+						t.previewKillMutex.Unlock()
 						removeFiles(tempFiles)
 						verifPoint("preview:finished")
 					} else {
@@ -4766,9 +4781,9 @@ func (t *Terminal) Loop() error {
 			})
 		}
 
+		t.killPreview()
 		t.eventBox.Set(EvtQuit, quitSignal{code, nil})
 		t.running.Set(false)
-		t.killPreview()
 		cancel()
 	}()
 
